@@ -232,3 +232,17 @@ Theorem C02_source_thin_bodies :
   thin_of "AsRef<[T;N]> for GenericArray<T,ConstArrayLength<N>>" "as_ref" = Some "unsafe { core :: mem :: transmute (self) }" /\
   thin_of "AsMut<[T;N]> for GenericArray<T,ConstArrayLength<N>>" "as_mut" = Some "unsafe { core :: mem :: transmute (self) }".
 Proof. repeat split. Qed.
+
+(* from_slice / try_from_slice / from_mut_slice as they stand in src/lib.rs now: the length test, then the cast of
+   the slice's own data pointer *)
+Theorem C02_source_slice_casts :
+  small_of "GenericArray" "from_slice" =
+    Some ["if slice . len () != N :: USIZE { panic ! (""slice.len() != N in GenericArray::from_slice"") ; }";
+          "unsafe { & * (slice . as_ptr () as * const GenericArray < T , N >) }"] /\
+  small_of "GenericArray" "try_from_slice" =
+    Some ["if slice . len () != N :: USIZE { return Err (LengthError) ; }";
+          "Ok (unsafe { & * (slice . as_ptr () as * const GenericArray < T , N >) })"] /\
+  small_of "GenericArray" "from_mut_slice" =
+    Some ["assert ! (slice . len () == N :: USIZE , ""slice.len() != N in GenericArray::from_mut_slice"") ;";
+          "unsafe { & mut * (slice . as_mut_ptr () as * mut GenericArray < T , N >) }"].
+Proof. exact tie_slice_casts. Qed.
